@@ -15,7 +15,7 @@ RULE = (
     "Non-trivial = at least 2 actions visited at least twice each; distinct by sequence hash."
 )
 ASSUMPTIONS = ["reference losses are positive (the relative-improvement reward is undefined at a zero reference)"]
-REQUIRED_COUNTERS = {"learn_steps": 2000, "policy_calls": 2000, "reward_calls": 2000, "improving_steps": 200, "twin_pairs": 50}
+REQUIRED_COUNTERS = {"twins_seeded_through_setter": 100, "learn_steps": 2000, "policy_calls": 2000, "reward_calls": 2000, "improving_steps": 200, "twin_pairs": 50}
 SHARDS = {"quick": 8, "thorough": 16}
 
 
@@ -38,7 +38,14 @@ def one_sequence(rng, out):
     seed = int(rng.integers(0, 2**31))
     steps = int(rng.integers(1, 201))
     agent = MABEpsilonGreedy(n, alpha, eps, initial_values=init, random_state=seed)
-    twin = MABEpsilonGreedy(n, alpha, eps, initial_values=init, random_state=seed)
+    # the twin receives the same seed the way a scheduler hands it over: through the random_state setter, after construction
+    how = int(rng.integers(0, 3))
+    if how == 0:
+        twin = MABEpsilonGreedy(n, alpha, eps, initial_values=init, random_state=seed)
+    else:
+        twin = MABEpsilonGreedy(n, alpha, eps, initial_values=init, random_state=None if how == 1 else int(rng.integers(0, 1000)))
+        twin.random_state = seed
+        c["twins_seeded_through_setter"] = c.get("twins_seeded_through_setter", 0) + 1
     env = MABCalibrationEnv(n)
     best0 = float(10.0 ** rng.uniform(-3, 3))
     env._curr_best_loss = best0
